@@ -238,7 +238,7 @@ class C14(Check):
     ASSUMPTIONS = ['only calls the store contract allows are issued in (a): no read of a never-added or deleted index',
                    'del_map is not part of the property (the quantifier does not list it) and is only exercised through group_by in (b)']
     ANCHORS = ['rxsci/state/memory_store.py', 'rxsci/state/store.py']
-    REQUIRED_TAGS = ['default-value-that-is-callable', 'dtype=int', 'dtype=uint', 'dtype=float', 'dtype=bool', 'dtype=obj', 'dtype=mapper', 'default', 'no-default',
+    REQUIRED_TAGS = ['one-mapper-with-over-2**20-indices-in-use', 'default-value-that-is-callable', 'dtype=int', 'dtype=uint', 'dtype=float', 'dtype=bool', 'dtype=obj', 'dtype=mapper', 'default', 'no-default',
                      'direct', 'manager', 'sparse', 'descending', 'pipeline', 'wide', 'far', 'stepwise-walk', 'abandoned-walk', 'type-names-built-at-run-time', 'large-maps']
     REQUIRED_OBSERVED = ['walk_steps', 'untouched_slots_checked_in_walks', 'store.add_key', 'store.set', 'store.get', 'store.del_key', 'store.iterate',
                          'store.add_map', 'store.get_map', 'store.iterate_map', 'slot_rereads']
@@ -250,6 +250,11 @@ class C14(Check):
         pnames = sorted(_pipelines())
         h = -1
         for k in range(n):
+            if k in (3, 11) and shard == 0:
+                # one mapper that hands out more than 2**16 / 2**20 indices while the first ones are still in use (a flat group_by on
+                # a user id): an index counter that wraps hands out index 0 again
+                yield {'kind': 'bigmap', 'first': ((1 << 16) if k == 3 else (1 << 20)) + 10, 'second': 3, 'then': 40, 'reopen': False}
+                continue
             if k % 130 == 7:
                 # large group-index maps: one outer key maps thousands of groups in a row, is deleted while another is alive, and more
                 # groups are mapped afterwards than it had (light form: the handed-out indices are checked against a set)
@@ -307,6 +312,8 @@ class C14(Check):
     def _eval_bigmap(self, case, out):
         from rxsci.state.memory_store import MemoryStore
         out.tags += ['dtype=mapper', 'large-maps']
+        if case['first'] > (1 << 20):
+            out.tags.append('one-mapper-with-over-2**20-indices-in-use')
         out.nontrivial = True
         st = MemoryStore(name='m', data_type='mapper')
         in_use = {}                      # index -> (outer, map key)
